@@ -27,11 +27,34 @@ def addRow (G : BipG) (u : Nat) (vs : List Nat) : Except Err BipG :=
 
 /-! ### bipartite_random_left_regular -/
 
-/-- `for u in L: for v in sorted(random.sample(R, d)): G.add_edge(u, v)` -/
+/-- `sys.maxsize` of the (64 bit) platform: `random.sample(range(1, r + 1), d)` raises
+`OverflowError` above it, so the code switches to a rejection loop -/
+abbrev sysMaxsize : Nat := 2 ^ 63 - 1
+
+/-- `neighbours = set(); while len(neighbours) < d: neighbours.add(random.randint(1, r))`.
+`need = d - len(neighbours)`, `acc` = the members of the set (most recent first; the set is only
+read through `sorted`).  A repeated value is not added.  The loop has no bound of its own; `fuel`
+is the number of draws available (every iteration consumes one), so running out of fuel is
+running out of draws. -/
+def distinctRandints (r : Int) : (fuel : Nat) → (need : Nat) → List Nat → RM (List Nat)
+  | _, 0, acc => pure acc
+  | 0, _ + 1, _ => fun _ => .stuck
+  | fuel + 1, need + 1, acc => do
+    let v ← randint 1 r
+    if acc.contains v.toNat then distinctRandints r fuel (need + 1) acc
+    else distinctRandints r fuel need (v.toNat :: acc)
+
+/-- the neighbours of one left vertex, before `sorted`:
+`random.sample(R, d) if r <= sys.maxsize else` the rejection loop -/
+def glrdNeighbours (r : Nat) (d : Int) : RM (List Nat) :=
+  if r ≤ sysMaxsize then sample (rangeN 1 (r + 1)) d
+  else fun ds => distinctRandints r ds.length d.toNat [] ds
+
+/-- `for u in L: neighbours = …; for v in sorted(neighbours): G.add_edge(u, v)` -/
 def leftRegularLoop (r : Nat) (d : Int) : List Nat → BipG → RM BipG
   | [], G => pure G
   | u :: us, G => do
-    let s ← sample (rangeN 1 (r + 1)) d
+    let s ← glrdNeighbours r d
     let G' ← RM.lift (addRow G u (sortNat s))
     leftRegularLoop r d us G'
 
@@ -39,6 +62,19 @@ def leftRegularLoop (r : Nat) (d : Int) : List Nat → BipG → RM BipG
 def leftRegular (l r d : Int) : RM BipG :=
   if l < 0 ∨ r < 0 ∨ d < 0 then RM.raise .valueError
   else leftRegularLoop r.toNat (min r d) (rangeN 1 (l.toNat + 1)) (BipG.init l.toNat r.toNat)
+
+/-- a `BipartiteGraph` without its right adjacency table (which has `r + 1` entries in this
+model, a `dict` in the code): what the compiled driver can afford for `r > sys.maxsize` -/
+def dropRadj (G : BipG) : BipG := { G with radj := [] }
+
+/-- `(BipG.init l r).dropRadj`, computed without the `r + 1` entries -/
+def initNoRadj (l r : Nat) : BipG := ⟨l, r, List.replicate (l + 1) [], [], []⟩
+
+/-- `leftRegular` run on a graph object without right adjacency table; equal to
+`leftRegular` up to `dropRadj` (`leftRegularNoRadj_eq` in Lemmas/GraphBuildSamplers.lean) -/
+def leftRegularNoRadj (l r d : Int) : RM BipG :=
+  if l < 0 ∨ r < 0 ∨ d < 0 then RM.raise .valueError
+  else leftRegularLoop r.toNat (min r d) (rangeN 1 (l.toNat + 1)) (initNoRadj l.toNat r.toNat)
 
 /-! ### bipartite_random_m_edges -/
 
